@@ -40,7 +40,7 @@ template <class C> char* Giant<C>::region = nullptr;
 template <class C> size_t Giant<C>::chars = 0;
 template <class C> C* Giant<C>::zero = nullptr;
 
-struct Case { unsigned long long klen[2]; long long vlen[2]; int items; int nb; int sp; int how; const char* name; };
+struct Case { unsigned long long klen[2]; long long vlen[2]; int items; int nb; int sp; int how; const char* name; int must_succeed; };   // must_succeed: the worst case is below INT_MAX, a refusal is wrong
 // how: 0 chars-required, 1 compose-malloc, 2 compose into a small buffer
 static const Case kCases[] = {
     {{(unsigned long long)INT_MAX / 6, 0}, {-1, -1}, 1, 1, 1, 0, "one key exactly at the per-item guard (INT_MAX/6)"},
@@ -53,6 +53,8 @@ static const Case kCases[] = {
     {{200000000ull, 200000000ull}, {100000000ll, 220000000ll}, 2, 0, 1, 0, "two items with factor 3, total just above INT_MAX"},
     {{8ull, 0}, {(long long)(INT_MAX / 6 - 1), -1}, 1, 1, 1, 2, "8-character key, then a value just below the guard, composed into a 64-character buffer (a writer-side bound computed in int would wrap)"},
     {{8ull, (unsigned long long)INT_MAX / 6 - 1}, {-1, -1}, 2, 1, 1, 2, "8-character first item, then a key just below the guard, composed into a 64-character buffer"},
+    {{400000000ull, 0}, {-1, -1}, 1, 0, 1, 0, "one key of 400 M characters without break normalization: worst case 1.2 G < INT_MAX, must be measured, not refused", 1},
+    {{(unsigned long long)INT_MAX / 6 + 5, 0}, {-1, -1}, 1, 0, 0, 0, "one key just above INT_MAX/6 without break normalization (factor 3): fits", 1},
 };
 
 template <class C> Verdict giant_case(const Plan& plan, Stats& st, int ci) {
@@ -62,7 +64,7 @@ template <class C> Verdict giant_case(const Plan& plan, Stats& st, int ci) {
     run_reset(plan.junk, REUSE_NEVER, 32);
     size_t need = 0;
     for (int i = 0; i < cs.items; i++) { need = std::max<size_t>(need, (size_t)cs.klen[i]); if (cs.vlen[i] >= 0) need = std::max<size_t>(need, (size_t)cs.vlen[i]); }
-    if (!Giant<C>::init(360000000)) { st.probe("giant_mapping_unavailable"); return none; }
+    if (!Giant<C>::init(405000000)) { st.probe("giant_mapping_unavailable"); return none; }
     if (need > Giant<C>::chars) { st.probe("giant_case_skipped_too_long"); return none; }
     g.giant_lo = (uintptr_t)Giant<C>::region; g.giant_hi = (uintptr_t)(Giant<C>::zero + 1);
     g.step_budget = 30000000ull + 200ull * (unsigned long long)need * (unsigned long long)cs.items;   // room for several linear passes over the input
@@ -91,6 +93,9 @@ template <class C> Verdict giant_case(const Plan& plan, Stats& st, int ci) {
                 snprintf(buf, sizeof buf, "[wrapped-figure] %s: chars-required returned success and the figure %d although the text needs %.0f characters (worst case exceeds INT_MAX)", cs.name, *req, true_len);
                 g.cur->op = 0; violate(V_INTMAX, buf, false);
             } else st.probe("giant_figure_accepted");
+        } else if (cs.must_succeed) {
+            snprintf(buf, sizeof buf, "[refused-although-it-fits] %s: chars-required returned %d although the worst case (%.0f x %d) is below INT_MAX", cs.name, (int)rc, true_len, cs.nb ? 6 : 3);
+            g.cur->op = 0; violate(V_INTMAX, buf, false);
         } else st.probe("giant_refused");
     }
     if (ok && g.violations.empty() && cs.how == 1) {
